@@ -416,3 +416,10 @@ Definition mon_split (asked : list (Z * Z)) (broker delivered : list qa) : bool 
    protocol package; the page reference counting itself is property C05's model).
      mon_pure    no call read a foreign byte. *)
 Definition mon_pure (foreign : list Z) : bool := forallb (Z.eqb 0) foreign.
+
+(* harness op trmeta: the first metadata response of a fresh pool is cut; afterwards the pool
+   must recover on a new connection.
+     mon_recover  Client.Metadata succeeded within the time bound, Writer.WriteMessages
+                  succeeded, and the broker received the record exactly once. *)
+Definition mon_recover (meta_ok write_ok : bool) (count : nat) : bool :=
+  meta_ok && write_ok && Nat.eqb count 1.
